@@ -23,7 +23,7 @@ Inductive perror :=
 | PEUnexpectedClose     (* ErrUnexpectedClose *)
 | PELoop                (* couldn't parse loop control structure *)
 | PEComplex             (* too complex condition *)
-| PENoBrace             (* condition without opening bracket *)
+| PENoBrace             (* condition / loop / switch without opening bracket *)
 | PEUnknownGetter       (* unknown getter nor modifier function *)
 | PEUnknownCallback     (* unknown callback function *)
 | PEUnknownNode         (* unknown node *)
@@ -454,6 +454,7 @@ Definition process (rec : list node -> option node -> nat -> target -> target ->
   | c0 :: _ =>
     if N.eqb c0 c_hash || has_prefix (bs "//") ctl then SNext (mkP dst (off + n) p root None)
     else if mt re_reLoop ncap_reLoop ctl then
+      if negb (N.eqb (last ctl 0%N) c_lbrace) then SErr (mkP dst off p root (Some PENoBrace)) else
       match loop_header ctl with
       | None => SErr (mkP dst off p root (Some PELoop))
       | Some r =>
@@ -467,6 +468,7 @@ Definition process (rec : list node -> option node -> nat -> target -> target ->
           end
       end
     else if mt re_reCondOK ncap_reCondOK ctl then
+      if negb (N.eqb (last ctl 0%N) c_lbrace) then SErr (mkP dst off p root (Some PENoBrace)) else
       let r := condok_header ctl in
       let sub_ := rec [] (Some (typed typeCondOK)) (off + n) p (mkT (cc p + 1) (cl p) (cs p)) in
       let node_ := with_child r (cond_children (p_nodes sub_)) in
@@ -505,6 +507,7 @@ Definition process (rec : list node -> option node -> nat -> target -> target ->
     else
       match sub re_reSwitch ncap_reSwitch ctl with
       | Some m =>
+          if negb (N.eqb (last ctl 0%N) c_lbrace) then SErr (mkP dst off p root (Some PENoBrace)) else
           let r := switch_node (g m 1) [] in
           let sub_ := rec [] (Some r) (off + n) p (mkT (cc p) (cl p) (cs p + 1)) in
           let r' := match p_root sub_ with Some x => x | None => r end in
